@@ -116,15 +116,16 @@ def run(ctx):
     os.environ["VERIF_EXTRA_METATYPES"] = ""
     thorough = ctx.tier == "thorough"
     # ---------------- K + S on single strings
-    strs = ["", "a", "<&>\"'", "a\rb", "a\r\nb", "\r", "\n", "\t", " x ", "]]>", "&amp;", "&#13;", "\x01", "a\x0bb", "￿", "é", "\U0001f600"] + \
+    strs = ["", "a", "<&>\"'", "a\rb", "a\r\nb", "\r", "\n", "\t", " x ", "]]>", "&amp;", "&#13;", "\x01", "a\x0bb", "￿", "é", "\U0001f600",
+            "Vendor::Mono 12", "::", "a::", "::b", "Qt::AlignLeft", "a|b", "x.y", "QFont::Bold|QFont::Light"] + \
            [gen_string(rng) for _ in range(9000 if thorough else 500)]
     # every place a source string is written into the .ui: element text (plain, translatable, item, string list, pixmap, icon file, key sequence, tab
     # attributes) and attribute values (icon theme)
     SDOC = ("import qmluic.QtWidgets\nQWidget {\n  windowIcon.name: %(s)s\n  QLabel { id: x; text: %(s)s }\n  QComboBox { id: y; model: [%(s)s, \"z\"] }\n"
             "  QLabel { id: p; pixmap: %(s)s }\n  QLabel { id: t; text: qsTr(%(s)s) }\n  QTextBrowser { id: sl; searchPaths: [%(s)s, \"z\"] }\n"
-            "  QToolButton { id: ic; icon.name: %(s)s; shortcut: %(s)s; icon.normalOff: %(s)s }\n"
+            "  QToolButton { id: ic; icon.name: %(s)s; shortcut: %(s)s; icon.normalOff: %(s)s }\n  QLabel { id: ff; font.family: %(s)s }\n"
             "  QTabWidget { QWidget { id: pg; QTabWidget.title: %(s)s; QTabWidget.toolTip: %(s)s; QTabWidget.icon.name: %(s)s } }\n}\n")
-    NPLACES = 12
+    NPLACES = 13
     sdocs = [SDOC % {"s": prog.qml_str(s)} for s in strs]
     res = qml.run_docs(vh, sdocs)
     terms, aterms = [], []
@@ -158,7 +159,7 @@ def run(ctx):
         if got2 != s:
             ctx.violation("item string read back differs from the source: %r != %r" % (got2, s), {"case": s, "qml": d, "impl_output": got2})
         # every other place
-        places = [(el.tag, el.text or "") for el in root.iter() if el.tag in ("string", "pixmap", "normaloff")] + [("@theme", el.get("theme")) for el in root.iter("iconset") if el.get("theme") is not None]
+        places = [(el.tag, el.text or "") for el in root.iter() if el.tag in ("string", "pixmap", "normaloff", "family")] + [("@theme", el.get("theme")) for el in root.iter("iconset") if el.get("theme") is not None]
         places = [pv for pv in places if pv[1] != "z" or s == "z"]
         wrong = [pv for pv in places if pv[1] != s]
         if wrong:
@@ -175,7 +176,7 @@ def run(ctx):
     # a string XML cannot carry must be diagnosed in EVERY place, one place per document (in the all-places document one diagnosed place hides the others)
     ONE = ["  windowIcon.name: %s\n", "  QLabel { text: %s }\n", "  QComboBox { model: [%s, \"z\"] }\n", "  QLabel { pixmap: %s }\n", "  QLabel { text: qsTr(%s) }\n",
            "  QTextBrowser { searchPaths: [%s, \"z\"] }\n", "  QToolButton { icon.name: %s }\n", "  QToolButton { shortcut: %s }\n", "  QToolButton { icon.normalOff: %s }\n",
-           "  QToolButton { icon.disabledOn: %s }\n", "  QTabWidget { QWidget { QTabWidget.title: %s } }\n", "  QTabWidget { QWidget { QTabWidget.toolTip: %s } }\n",
+           "  QToolButton { icon.disabledOn: %s }\n", "  QLabel { font.family: %s }\n", "  QTabWidget { QWidget { QTabWidget.title: %s } }\n", "  QTabWidget { QWidget { QTabWidget.toolTip: %s } }\n",
            "  QTabWidget { QWidget { QTabWidget.icon.name: %s } }\n", "  QTabWidget { QWidget { QTabWidget.icon.normalOn: %s } }\n", "  windowIcon.selectedOff: %s\n"]
     bads = [x for x in strs if x and not all(is_xml_char(c) for c in x)]
     bads = bads[:400 if thorough else 40]
